@@ -694,6 +694,9 @@ func genInst(r *Rng, d int) *Sx {
 	case 6:
 		return L(A("seq"), sub())
 	case 7:
+		if r.Intn(3) == 0 {
+			return L(A("gomap"), L(A("ptr"), A("int")), sub())
+		}
 		return L(A("gomap"), A("int"), sub())
 	case 8:
 		return L(A("option"), sub())
@@ -789,6 +792,15 @@ func (g *gen) val(t *T, depth int) *Sx {
 		es := []*Sx{}
 		seen := map[int]bool{}
 		for i := 0; i < n; i++ {
+			if t.E[0].K == "ptr" {
+				// reference-typed keys (seed C18-8): always a FRESH pointer, so that keys stay distinct; the pointee
+				// may be aliased with other storage of the case
+				kid := g.id()
+				g.defs[t.E[0].String()] = append(g.defs[t.E[0].String()], def{kid, 0})
+				hist["ptr-key"]++
+				es = append(es, L(L(A("ptr"), I(kid), g.val(t.E[0].E[0], depth-1)), g.val(t.E[1], depth-1)))
+				continue
+			}
 			k := r.Range(0, 4)
 			if seen[k] {
 				continue
